@@ -156,11 +156,25 @@ class Compiler:
         if arg is not None:
             if opcode in self._JUMP_OPCODES:
                 # 16-bit little-endian for jump targets
+                self._check_jump_target(arg)
                 self.bytecode.append(arg & 0xFF)
                 self.bytecode.append((arg >> 8) & 0xFF)
             else:
+                if not 0 <= arg <= 0xFF:
+                    raise JSError(
+                        f"Program too large: operand {arg} of {opcode.name} "
+                        "does not fit in one byte (maximum 255)"
+                    )
                 self.bytecode.append(arg)
         return pos
+
+    def _check_jump_target(self, target: int) -> None:
+        """Refuse jump targets that cannot be encoded in 16 bits."""
+        if not 0 <= target <= 0xFFFF:
+            raise JSError(
+                f"Program too large: jump target {target} does not fit in "
+                "16 bits (maximum 65535 bytes of bytecode per function)"
+            )
 
     def _set_loc(self, node: Node) -> None:
         """Set current source location from an AST node."""
@@ -185,6 +199,7 @@ class Compiler:
         """
         if target is None:
             target = len(self.bytecode)
+        self._check_jump_target(target)
         self.bytecode[pos + 1] = target & 0xFF  # Low byte
         self.bytecode[pos + 2] = (target >> 8) & 0xFF  # High byte
 
